@@ -1179,6 +1179,8 @@ class Symex:
             g = self.facts.globals.get(e['q'])
             if g is not None and g.get('const_value') is not None:
                 return [(p, Val(C(g['const_value']), (g['const_value'], g['const_value'])))]
+            if g is not None and g.get('const_str') is not None:
+                return [(p, Val(('str', g['const_str'])))]
             return [(p, Val(('global', e['q']), type_range(e['cty'])))]
         if dk == 'func':
             return [(p, Val(('func', e['q'])))]
@@ -1573,6 +1575,27 @@ class Symex:
                     iv = (0 if a.iv[0] <= 0 <= a.iv[1] else min(c), max(c))
                 res.append((q, Val(('abs', a.term), iv, a.notes)))
             return res
+        # --- std::fill_n(std::back_inserter(v), n, x): appends n copies of x (nothing when n <= 0)
+        if callee.split('<')[0] == 'std::fill_n' and len(e['args']) == 3:
+            from .facts import strip_casts as _sc, strip_copies as _sco
+            it = _sco(_sc(e['args'][0]))
+            if it is not None and it.get('k') == 'call' and (it.get('callee') or '').split('<')[0] == 'std::back_inserter' and it.get('args'):
+                tgt = it['args'][0]
+                if ((tgt.get('cty') or '').replace('const ', '')).startswith('std::vector<'):
+                    res = []
+                    for q, olp in self.eval_lvalue(tgt, p, ctx):
+                        if olp is None:
+                            q.effects.append(('unknown', 'fill_n on unmodelled object ' + show(e), tuple(e['loc'])))
+                            res.append((q, opaque(e)))
+                            continue
+                        olp = self._norm_lp(q, olp)
+                        for q2, args in self.eval_args(e['args'][1:], q, ctx):
+                            vs = q2.vecstate(olp)
+                            vs.ops.append(('append_n', args[0], args[1], q2.loopctx))
+                            vs.lost = True
+                            q2.effects.append(('vecop', olp, 'push', args[1], q2.loopctx + (('fill_n', show(e['args'][1])),), tuple(e.get('loc', ()))))
+                            res.append((q2, opaque(e)))
+                    return res
         # --- containers
         if obj is not None:
             octy = (obj.get('cty') or '').replace('const ', '')
